@@ -364,7 +364,69 @@ def check(run):
     for c, o, ch in res:
         if c['kind'] == 'send':
             run.count('outcome_' + o['kind'] + ('_' + o.get('err', '') if o['kind'] == 'refused' else ''))
+    check_refused_start(run)
+
+
+def check_refused_start(run):
+    """'before the start ... it raises EdzedInvalidState and delivers nothing': a circuit whose start was
+    REFUSED (eager task factory, Python 3.12+: run_forever() raises before anything is set up) has not
+    been started; sends must still be refused afterwards."""
+    if not hasattr(asyncio, 'eager_task_factory'):
+        return
+    obs = dict(start=None, sends=[], ready=None, harness=None)
+    delivered = []
+
+    async def main(loop):
+        edzed.reset_circuit()
+        circuit = edzed.get_circuit()
+
+        class P(edzed.SBlock):
+            def init_regular(self):
+                self.set_output(0)
+
+            def _event(self, etype, data):
+                delivered.append(etype)
+                return 'handled'
+        p = P('p')
+        inp = edzed.Input('inp', initdef=0)
+        loop.set_task_factory(asyncio.eager_task_factory)
+        try:
+            try:
+                await circuit.run_forever()
+                obs['start'] = 'returned'
+            except BaseException as err:      # noqa
+                obs['start'] = type(err).__name__
+        finally:
+            loop.set_task_factory(None)
+        await asyncio.sleep(0)
+        obs['ready'] = circuit.is_ready()
+        for dest, et, kw in ((p, 'ev', {}), (inp, 'put', {'value': 3})):
+            try:
+                r = edzed.ExtEvent(dest, et).send(**kw)
+                obs['sends'].append(['delivered', repr(r)])
+            except Exception as err:          # noqa
+                obs['sends'].append(['refused', type(err).__name__])
+    try:
+        vloop.run_virtual(main)
+    except BaseException as err:              # noqa
+        obs['harness'] = repr(err)[:200]
+    finally:
+        edzed.reset_circuit()
+    run.add_case(dict(refused_start='eager_task_factory'), True)
+    run.count('refused_start')
+    ok = (obs['harness'] is None and obs['start'] == 'RuntimeError' and obs['ready'] is False and not delivered
+          and obs['sends'] == [['refused', 'EdzedInvalidState']] * 2)
+    run.add_obligation(ok)
+    if not ok:
+        run.violation('monitor', dict(case=dict(refused_start='eager_task_factory'), observed=obs),
+                      f"a start refused under the eager task factory: run_forever() -> {obs['start']}, then "
+                      f"is_ready()={obs['ready']}, sends {obs['sends']} (expected: refused with EdzedInvalidState, "
+                      f"nothing delivered; delivered: {delivered}); harness: {obs['harness']}",
+                      clause='send_after_refused_start', concrete=True)
 
 
 def replay(run, path):
+    _, case = common.load_replay_case(path)
+    if isinstance(case, dict) and 'refused_start' in case:
+        return common.directed_replay(run, path, lambda: check_refused_start(run))
     return common.std_replay(run, C14(), path)
